@@ -224,6 +224,10 @@ def hostile(base, word):
         doc = doc[:len(doc) // 2]
     elif 'truncate_before_close' in word:
         doc = doc[:doc.rfind('</')]
+    if 'decl_latin1' in word:
+        return u'<?xml version="1.0" encoding="ISO-8859-1"?>' + doc          # handed over as text
+    if 'decl_utf16text' in word:
+        return u'<?xml version="1.0" encoding="UTF-16"?>' + doc             # text that claims to be UTF-16
     if 'utf16' in word:
         return ('<?xml version="1.0" encoding="UTF-16"?>' + doc).encode('utf-16')
     if 'bom' in word:
@@ -241,10 +245,11 @@ def replay(case):
     data = hostile(base(), case['word'])
     out = {'events': [], 'outcome': None}
     arg = data
-    try:
-        arg = data.decode('utf-8')
-    except UnicodeDecodeError:
-        pass
+    if isinstance(data, bytes):
+        try:
+            arg = data.decode('utf-8')
+        except UnicodeDecodeError:
+            pass
     del _EVENTS[:]
     _ARMED[0] = True
     try:
@@ -267,7 +272,7 @@ def replay(case):
     finally:
         _ARMED[0] = False
     out['events'] = list(_EVENTS)
-    out['doc'] = data[:400].decode('utf-8', 'replace')
+    out['doc'] = data[:400].decode('utf-8', 'replace') if isinstance(data, bytes) else data[:400]
     return out
 
 
